@@ -61,8 +61,13 @@ class TlsFn(EFn):
         n = C._strip(n)
         while n["kind"] == "ImplicitCastExpr" and n.get("castKind") in ("LValueToRValue", "NoOp"):
             n = C._strip(kids(n)[0])
-        if n["kind"] == "MemberExpr" and n.get("name") in FIELDS and kids(n) and C._strip(kids(n)[0])["kind"] == "CXXThisExpr":
-            return n["name"]
+        if n["kind"] == "MemberExpr" and n.get("name") in FIELDS and kids(n):
+            b0 = C._strip(kids(n)[0])
+            if b0["kind"] == "CXXThisExpr":
+                return n["name"]
+            # `sock.field` in a helper that was handed `*this` as `SocketTlsImpl &sock`
+            if b0["kind"] == "DeclRefExpr" and self.env.get(b0.get("referencedDecl", {}).get("id")) == ("selfref",):
+                return n["name"]
         if n["kind"] == "DeclRefExpr":
             b = self.env.get(n.get("referencedDecl", {}).get("id"))
             if isinstance(b, tuple) and b[0] == "fieldref":
@@ -131,6 +136,13 @@ class TlsFn(EFn):
                 return b[1]
         return None
 
+    def bind_special(self, p, a0):
+        """`*this` handed to a `SocketTlsImpl &` parameter of a helper: the helper works on this object's fields"""
+        if a0["kind"] == "UnaryOperator" and a0.get("opcode") == "*" and C._strip(kids(a0)[0])["kind"] == "CXXThisExpr" and \
+                re.match(r"^(sockpuppet::)?SocketTlsImpl\s*&$", (p.get("type") or {}).get("qualType") or ""):
+            return ("selfref",)
+        return None
+
     # ---- pure expressions -------------------------------------------------
     def opt_local(self, n):
         n = C._strip(n)
@@ -158,6 +170,14 @@ class TlsFn(EFn):
                         return Val("(%s.getD 0)" % b.s, U64)       # only reached under `if(opt)`
             except Untranslatable:
                 pass
+        if n.get("kind") == "CXXMemberCallExpr" and len(kids(n)) == 2 and kids(n)[0].get("kind") == "MemberExpr" and \
+                kids(n)[0].get("name") == "value_or":
+            b = self.opt_local(kids(kids(n)[0])[0])
+            if b is not None:
+                d = self.expr(kids(n)[1])
+                if d.ty.kind != "int":
+                    fail("value_or with a non-integer default")
+                return Val("(%s.getD %s)" % (b.s, convert(d, U64).s), U64)
         pb = self.pollbit_expr(n)
         if pb is not None:
             return Val("(if %s = true then (%d : Int) else 0)" % (pb, POLLOUT), I32)
@@ -207,7 +227,7 @@ class TlsFn(EFn):
             body = [c for c in kids(lam) if c["kind"] == "CompoundStmt"]
             if len(body) != 1:
                 fail("lambda without a body")
-            return self.inline(body[0], lenv, k)
+            return self.inline_body(body[0], lenv, k)
         if n.get("kind") == "CXXMemberCallExpr" and kids(n) and kids(n)[0].get("name") == "count" and len(kids(n)) == 1:
             return self.ex(kids(kids(n)[0])[0], lambda v: k(Val(v.s, I64)) if v.ty.kind == "dur" else fail(".count() of a non-duration"))
         if n.get("kind") == "CallExpr":
@@ -270,9 +290,9 @@ class TlsFn(EFn):
             fail("UnderDeadline does not have two parameters")
         lenv = dict(self.env)         # the lambda captures the caller's names
         benv = {pv[0]["id"]: ("lambda", (lam, lenv)), pv[1]["id"]: ("fieldref", f)}
-        return self.inline(C.body_of(inst), benv, k)
+        return self.inline_body(C.body_of(inst), benv, k)
 
-    def inline(self, body, env, k):
+    def inline_body(self, body, env, k):
         """translate `body` in place with its own names; `return v` continues with k(v)"""
         if self.inline_depth > 3:
             fail("inlining too deep")
